@@ -1,3 +1,12 @@
+/-
+Auxiliary lemmas for the engine invariant proofs (C09 / C13 / C21):
+A. value validity (`validNulls` / `validQ`): nullability weakening, scalar-only subtyping, the executed
+   validator `validValueR` implies the relation, accepted arguments are valid, list inversion;
+B. the filter operators never reach `Outcome.panic` on operands that are valid for admissible operand
+   types (`binTypesValid`), outside the known triggers F-4 (regex) and F-5 (ordering on lists);
+C. the fold-count limits (`foldLimits`) never panic when the post-filter variables are typed as
+   inferred and hold valid values.
+-/
 import TrustfallModel.Proofs.InterpInvSafe
 
 namespace TF.Engine
@@ -462,5 +471,144 @@ theorem applyStatic_ok (rx : Filter.RegexEngine) (o : Filter.BinOp) (lt rt : QTy
       have : ∃ b, (fun l (p : Bytes → Bool) => Filter.regexMatchesOptimized p l) l m = .ok b :=
         regexMatchesOptimized_ok m (validQ_isStringTy_inv hl ht.1)
       exact notOp_ok this
+
+/-! ### C. fold-count limits -/
+
+theorem QTy.beq_eq {a b : QTy} (h : (a == b) = true) : a = b := by
+  obtain ⟨ab, an⟩ := a; obtain ⟨bb, bn⟩ := b
+  simp only [BEq.beq, instBEqQTy.beq, Bool.and_eq_true, decide_eq_true_eq] at h
+  obtain ⟨h1, h2⟩ := h
+  have h2' : (an == bn) = true := h2
+  rw [beq_iff_eq] at h2'
+  simp_all
+
+theorem inferredOK_inv {lt : QTy} {o : Filter.BinOp} {vt : QTy}
+    (h : inferredOK lt o vt = true) : Frontend.inferVariableType lt o = .ok vt := by
+  unfold inferredOK at h
+  split at h
+  · rename_i t ht
+    rw [ht, QTy.beq_eq h]
+  · cases h
+
+theorem inferredOK_count_inv {o : Filter.BinOp} {vt : QTy}
+    (h : inferredOK ⟨"Int", [false]⟩ o vt = true)
+    (hb : Frontend.binTypesValid ⟨"Int", [false]⟩ vt o = true) :
+    (o = .oneOf ∨ o = .notOneOf) ∧ vt = ⟨"Int", [false, false]⟩ ∨
+      (o ≠ .oneOf ∧ o ≠ .notOneOf) ∧ vt = ⟨"Int", [false]⟩ := by
+  have hi := inferredOK_inv h
+  cases o <;>
+    simp [Frontend.inferVariableType, QTy.withNullability, QTy.listOf, QTy.asList,
+      Frontend.orErr, Frontend.binTypesValid, Frontend.isStringTy, QTy.isList] at hi hb ⊢ <;>
+    first
+      | exact hi.symm
+      | (cases hi)
+
+theorem usizeExpect_ok {v : Value} (h : validQ ⟨"Int", [false]⟩ v = true) :
+    ∃ n, usizeExpect v = .ok n := by
+  cases v <;>
+    simp_all [validQ, validNulls, usizeExpect, usizeFromValue, R.bind]
+
+theorem listMaxR_ok : ∀ {l : List Value} (h : ∀ x ∈ l, validQ ⟨"Int", [false]⟩ x = true),
+    ∃ m, listMaxR l = .ok m
+  | [], _ => ⟨none, rfl⟩
+  | x :: xs, h => by
+    obtain ⟨n, hn⟩ := usizeExpect_ok (h x (by simp))
+    obtain ⟨m, hm⟩ := listMaxR_ok (l := xs) (fun y hy => h y (by simp [hy]))
+    simp only [listMaxR, R.bind_eq_bind, R.pure_eq_ok, hn, hm, R.bind_ok']
+    cases m <;> exact ⟨_, rfl⟩
+
+def PostVarOK (env : Env) (f : IRFilter) : Prop :=
+  ∀ o n vt, f.op = .bin o → f.right = some (.var n vt) →
+    inferredOK ⟨"Int", [false]⟩ o vt = true ∧ Frontend.binTypesValid ⟨"Int", [false]⟩ vt o = true ∧
+      ∃ v, env.arg n = .ok v ∧ validQ vt v = true
+
+/-- a scalar count operand: the argument exists and is coercible to `usize` -/
+theorem postVar_scalar {env : Env} {f : IRFilter} (h : PostVarOK env f) {o : Filter.BinOp}
+    {n : Name} {vt : QTy} (ho : f.op = .bin o) (hr : f.right = some (.var n vt))
+    (hno : o ≠ .oneOf ∧ o ≠ .notOneOf) :
+    ∃ v k, env.arg n = .ok v ∧ usizeExpect v = .ok k := by
+  obtain ⟨h1, h2, v, hv, hval⟩ := h o n vt ho hr
+  rcases inferredOK_count_inv h1 h2 with ⟨ho' | ho', _⟩ | ⟨_, rfl⟩
+  · exact absurd ho' hno.1
+  · exact absurd ho' hno.2
+  · obtain ⟨k, hk⟩ := usizeExpect_ok hval
+    exact ⟨v, k, hv, hk⟩
+
+theorem postVar_list {env : Env} {f : IRFilter} (h : PostVarOK env f)
+    {n : Name} {vt : QTy} (ho : f.op = .bin .oneOf) (hr : f.right = some (.var n vt)) :
+    ∃ vs m, env.arg n = .ok (.list vs) ∧ listMaxR vs = .ok m := by
+  obtain ⟨h1, h2, v, hv, hval⟩ := h _ n vt ho hr
+  rcases inferredOK_count_inv h1 h2 with ⟨_, rfl⟩ | ⟨⟨hno, _⟩, _⟩
+  · unfold validQ at hval
+    cases v with
+    | list vs =>
+      obtain ⟨m, hm⟩ := listMaxR_ok (l := vs) (fun x hx => validNulls_list_inv hval x hx)
+      exact ⟨vs, m, hv, hm⟩
+    | _ => simp [validNulls] at hval
+  · exact absurd rfl hno
+
+theorem maxLimitOf_ok {env : Env} {f : IRFilter} (h : PostVarOK env f) :
+    ∃ m, maxLimitOf env f = .ok m := by
+  unfold maxLimitOf
+  split
+  · rename_i n vt hl ho hr
+    obtain ⟨v, k, hv, hk⟩ := postVar_scalar h ho hr (by simp)
+    simp [hv, hk]
+  · rename_i n vt hl ho hr
+    obtain ⟨v, k, hv, hk⟩ := postVar_scalar h ho hr (by simp)
+    simp [hv, hk]
+  · rename_i n vt hl ho hr
+    obtain ⟨v, k, hv, hk⟩ := postVar_scalar h ho hr (by simp)
+    simp [hv, hk]
+  · rename_i n vt hl ho hr
+    obtain ⟨vs, m, hv, hm⟩ := postVar_list h ho hr
+    simp [hv, hm]
+  · exact ⟨none, rfl⟩
+
+theorem maxFoldLimit_ok {env : Env} : ∀ {fs : List IRFilter} (acc : Option Nat)
+    (h : ∀ f ∈ fs, PostVarOK env f), ∃ m, maxFoldLimit env fs acc = .ok m
+  | [], acc, _ => ⟨acc, rfl⟩
+  | f :: fs, acc, h => by
+    obtain ⟨m, hm⟩ := maxLimitOf_ok (h f (by simp))
+    simp only [maxFoldLimit, R.bind_eq_bind, hm, R.bind_ok']
+    exact maxFoldLimit_ok _ (fun g hg => h g (by simp [hg]))
+
+theorem minLimitOf_ok {env : Env} {f : IRFilter} (h : PostVarOK env f) :
+    ∃ m, minLimitOf env f = .ok m := by
+  unfold minLimitOf
+  split
+  · rename_i n vt hl ho hr
+    obtain ⟨v, k, hv, hk⟩ := postVar_scalar h ho hr (by simp)
+    simp [hv, hk]
+  · rename_i n vt hl ho hr
+    obtain ⟨v, k, hv, hk⟩ := postVar_scalar h ho hr (by simp)
+    simp [hv, hk]
+  · exact ⟨none, rfl⟩
+
+theorem minFoldLimit_ok {env : Env} : ∀ {fs : List IRFilter} (acc : Option Nat)
+    (h : ∀ f ∈ fs, PostVarOK env f), ∃ m, minFoldLimit env fs acc = .ok m
+  | [], acc, _ => ⟨acc, rfl⟩
+  | f :: fs, acc, h => by
+    obtain ⟨m, hm⟩ := minLimitOf_ok (h f (by simp))
+    simp only [minFoldLimit, R.bind_eq_bind, R.pure_eq_ok, hm, R.bind_ok']
+    cases m with
+    | none => exact ⟨none, rfl⟩
+    | some k => exact minFoldLimit_ok _ (fun g hg => h g (by simp [hg]))
+
+theorem effectiveMinLimit_ok {env : Env} (parent : Component) {fold : Fold}
+    (h : ∀ f ∈ fold.post, PostVarOK env f) : ∃ m, effectiveMinLimit env parent fold = .ok m := by
+  obtain ⟨m, hm⟩ := minFoldLimit_ok (env := env) none h
+  simp only [effectiveMinLimit, R.bind_eq_bind, R.pure_eq_ok, hm, R.bind_ok']
+  cases m <;> exact ⟨_, rfl⟩
+
+theorem foldLimits_ok (env : Env) (parent : Component) (fold : Fold)
+    (h : ∀ f ∈ fold.post, PostVarOK env f) : ∃ lim, foldLimits env parent fold = .ok lim := by
+  unfold foldLimits
+  split
+  · obtain ⟨a, ha⟩ := maxFoldLimit_ok (env := env) none h
+    obtain ⟨b, hb⟩ := effectiveMinLimit_ok (env := env) parent h
+    simp only [R.bind_eq_bind, R.pure_eq_ok, ha, hb, R.bind_ok']
+    exact ⟨_, rfl⟩
+  · exact ⟨_, rfl⟩
 
 end TF.Engine
